@@ -66,7 +66,7 @@ ASAN_CLASSES = ("Modular<Log16>", "GFqDom<int64_t>", "GFqExtFast<int64_t>", "GFq
                 "Poly1Dom<GFqDom<int64_t>,Dense>", "Poly1FactorDom<Modular<double>,Dense>", "IntRNSsystem<vector>", "RNSsystem<Integer,Modular<double>>",
                 "Modular<Integer>", "Montgomery<ruint<7>>")
 # expiry of the harness's own limits (CPU limit, wall-clock alarm, OOM killer): a statement about the tooling, never a violation by itself
-WATCHDOG = ("watchdog-cpu", "watchdog-wall", "skipped-after-watchdog", "signal-14", "signal-24", "signal-9")
+WATCHDOG = ("watchdog-cpu", "watchdog-wall", "watchdog-kill", "skipped-after-watchdog", "signal-14", "signal-24", "signal-9")
 TOOLING_MARKS = ("[timeout after", "[timeout]", "Killed", "out of memory", "Out of memory", "virtual memory exhausted", "annot allocate memory",
                  "No space left on device", "Resource temporarily unavailable", "fork: retry")
 
@@ -675,56 +675,74 @@ def report_stream_loss(chk, what, missing, total, bad):
         chk.broke("%s: the history harness died (lost output lines)" % what, detail)
 
 
+# budgets (CPU seconds: load independent).  Normal cost of one history: 0.01-0.3 s (the slowest constructions, Extension(p, e, Indeter) and the
+# AddressSanitizer build, stay below 1 s).  First stage 10 s per history (harness default); confirmation alone 30 s; at most 3 confirmations
+# and 6 first-stage overruns per run (the harness dispatchers share that cap and stop driving a class after its FIRST overrun).
+CONFIRM_CPU = 30
+MAX_CONFIRMATIONS = 3
+
+
 def resolve_watchdog(chk, hb, cls, hist, crash, tier, budget):
-    """A child stopped by the harness's own watchdog (CPU limit / wall-clock alarm / OOM killer) says nothing about the property.  The
-    history is run once more, ALONE, with much larger limits.  Only a hang that reproduces there while the same constructions finish
-    quickly on their own is specific to the history and is reported; everything else is recorded as inconclusive.
+    """A child stopped by the harness's own CPU budget is re-run ALONE with a budget of 30 s CPU (>= 100 x its normal cost).  If it completes
+    there, its answer is evaluated normally.  If it overruns again it DOES NOT RETURN: a concrete failing input (klass does-not-return); the
+    constructions of the history are also run alone, to tell whether the hang is in a construction or specific to the history.  A child
+    killed by the system (memory) or by the wall-clock alarm is never confirmed: inconclusive.
     returns the output line to evaluate, or None"""
     rec = {"class": cls, "history": hist, "first_run": crash}
     chk.cov.setdefault("watchdog", []).append(rec)
-    if chk.failing:
-        rec["verdict"] = "not re-run: this run already has concrete failing inputs, the verdict does not depend on this history"
+    done = set(f["case"].get("class") for f in chk.failing if f["klass"] == "does-not-return")
+    if any(m in done for m in cls.split("&") + [cls]):
+        rec["verdict"] = "not re-run: a history of this class is already confirmed as not returning (the class is not driven any more in this run)"
         return None
     if budget[0] <= 0:
-        rec["verdict"] = "inconclusive: not re-run (re-run budget of this check used up)"
-        inconclusive(chk, "history '%s %s' stopped by the harness watchdog (%s); not re-run" % (cls, hist, crash))
+        rec["verdict"] = "not confirmed: the %d confirmations of this run are used up" % MAX_CONFIRMATIONS
+        if not any(f["klass"] == "does-not-return" for f in chk.failing):
+            inconclusive(chk, "history '%s %s' stopped by the harness watchdog (%s); not re-run" % (cls, hist, crash))
         return None
     budget[0] -= 1
-    cpu, wall = (150, 1500) if tier == "quick" else (400, 2700)
-    env = {"C16_CPU_LIMIT": str(cpu), "C16_WALL_LIMIT": str(wall)}
+    cpu, wall = CONFIRM_CPU, 900
+    env = {"C16_CPU_LIMIT": str(cpu), "C16_WALL_LIMIT": str(wall), "C16_SHARED": ""}
     t0 = time.time()
-    rc, out, err = run_harness(hb, "%s %s\n" % (cls, hist), wall + 120, env)
+    rc, out, err = run_harness(hb, "%s %s\n" % (cls, hist), wall + 60, env)
     rec["rerun_seconds"] = round(time.time() - t0, 1)
     line = out[0] if out else None
     crash2 = parse_line(line)[2] if line else "no answer (rc %s)" % rc
     if line and (crash2 is None or crash2 not in WATCHDOG):
-        rec["verdict"] = "re-run alone with a CPU limit of %d s: completed; evaluated normally" % cpu
+        rec["verdict"] = "re-run alone with a CPU budget of %d s: completed; evaluated normally" % cpu
         return line
     rec["rerun"] = crash2
-    # control: the constructions of this history, each alone in a fresh process, same limits
-    ctl = sorted(set(e[3:] for e in hist.split() if e[0] == "c"))
+    if crash2 != "watchdog-cpu":
+        rec["verdict"] = "inconclusive: the re-run was stopped by the system / the wall-clock alarm (%s), not by the CPU budget" % crash2
+        inconclusive(chk, "history '%s %s' stopped twice (%s, then %s): not a CPU-budget overrun" % (cls, hist, crash, crash2))
+        return None
+    # the constructions of this history, each alone: is the hang in a construction or specific to the history?
+    ctl = sorted(set(e[3:] for e in hist.split() if e[0] == "c"))[:3]
     import resource
     worst, ctl_ok = 0.0, True
-    for q in ctl:
-        r0 = resource.getrusage(resource.RUSAGE_CHILDREN)
-        rc, o2, _ = run_harness(hb, "%s c0:%s\n" % (cls.split("&")[0] if "&" not in cls else cls, q), wall + 120, env)
-        r1 = resource.getrusage(resource.RUSAGE_CHILDREN)
-        worst = max(worst, (r1.ru_utime + r1.ru_stime) - (r0.ru_utime + r0.ru_stime))          # CPU seconds (load independent), like the limit
-        c2 = parse_line(o2[0])[2] if o2 else "no answer"
-        ctl_ok = ctl_ok and c2 is None
-    rec["control_constructions_alone"] = {"parameters": ctl, "all_completed": ctl_ok, "slowest_cpu_seconds": round(worst, 2)}
-    if ctl_ok and worst * 10 < cpu and crash2 == "watchdog-cpu":
-        rec["verdict"] = "hang specific to the history: reproduced alone with %d s of CPU, the constructions alone need %.1f s" % (cpu, worst)
-        steps = parse_line(line)[1] if line else []
-        evs = hist.split()
-        ev = evs[len(steps)] if len(steps) < len(evs) else "end"
-        cat = category(ev, int(ev[1])) if ev != "end" else "destructors-at-end"
-        chk.fail_input("history:%s:hang" % cls, cat, {"class": cls, "history": hist, "during_event": ev, "cpu_limit_s": cpu, "control": rec["control_constructions_alone"]},
-                       "terminates", "does not return: no answer within %d s of CPU time (and within the first limit before), while each construction of the history alone needs <= %.2f s of CPU" % (cpu, worst),
-                       "replay: echo '%s %s' | C16_CPU_LIMIT=%d c16_history" % (cls, hist, cpu))
-        return None
-    rec["verdict"] = "inconclusive: stopped again with generous limits, and the constructions alone are not quick either (machine load / memory)"
-    inconclusive(chk, "history '%s %s' stopped by the harness watchdog twice (%s, then %s with %d s CPU)" % (cls, hist, crash, crash2, cpu))
+    env2 = dict(env, C16_CPU_LIMIT="10")
+    if len(hist.split()) > 1 and "&" not in cls:
+        for q in ctl:
+            r0 = resource.getrusage(resource.RUSAGE_CHILDREN)
+            rc, o2, _ = run_harness(hb, "%s c0:%s\n" % (cls, q), 300, env2)
+            r1 = resource.getrusage(resource.RUSAGE_CHILDREN)
+            worst = max(worst, (r1.ru_utime + r1.ru_stime) - (r0.ru_utime + r0.ru_stime))
+            c2 = parse_line(o2[0])[2] if o2 else "no answer"
+            ctl_ok = ctl_ok and c2 is None
+        rec["control_constructions_alone"] = {"parameters": ctl, "all_completed": ctl_ok, "slowest_cpu_seconds": round(worst, 2)}
+    steps = parse_line(line)[1] if line else []
+    evs = hist.split()
+    ev = evs[len(steps)] if len(steps) < len(evs) else "end"
+    part = "?"
+    if steps:
+        for o, parts in steps[-1][1].items():
+            for pn, h in parts.items():
+                if h is None:
+                    part, ev = pn, steps[-1][0]
+    rec["verdict"] = "does not return: overran %d s of CPU alone (first stage: %s)" % (cpu, crash)
+    chk.fail_input("history:%s:hang" % cls, "does-not-return",
+                   {"class": cls, "history": hist, "during_event": ev, "part": part, "cpu_budget_s": cpu, "constructions_alone": rec.get("control_constructions_alone")},
+                   "terminates", "does not return: no answer within %d s of CPU time when run alone (the first-stage budget was overrun before); a history of this kind needs < 0.5 s" % cpu,
+                   "replay: echo '%s %s' | C16_CPU_LIMIT=%d c16_history" % (cls, hist, cpu))
     return None
 
 
@@ -818,7 +836,7 @@ def gen_cross_histories(rng, tier, classes):
 # AddressSanitizer build of the same harness: a read of freed tables / a double free after copy-assign-destroy is an error there even when the
 # bytes happen to be unchanged.  Run on the directed copy / assign / swap / move / destroy histories.
 ASAN_FLAGS = ("-fsanitize=address", "-fno-omit-frame-pointer", "-O1", "-g0")
-ASAN_ENV = {"ASAN_OPTIONS": "exitcode=77:detect_leaks=0:abort_on_error=0:allocator_may_return_null=1", "C16_CPU_LIMIT": "60"}
+ASAN_ENV = {"ASAN_OPTIONS": "exitcode=77:detect_leaks=0:abort_on_error=0:allocator_may_return_null=1", "C16_CPU_LIMIT": "10"}
 
 
 def run_asan(chk, rng, tier, classes, iso):
@@ -858,6 +876,8 @@ def run_asan(chk, rng, tier, classes, iso):
         if line is None:
             continue
         cls, steps, crash = parse_line(line)
+        if crash in WATCHDOG and crash != "skipped-after-watchdog":
+            resolve_watchdog(chk, hb, c, h, crash, tier, getattr(chk, "c16_budget", [0]))
         if crash in WATCHDOG or crash == "no-such-constructor":
             continue
         n += 1
@@ -891,7 +911,12 @@ def run_histories(chk, rng, tier, classes=None):
     if hb is None:
         return 0
     classes = classes or HIST_CLASSES
-    budget = [1 if tier == "quick" else 3]         # re-runs of histories stopped by the watchdog
+    budget = chk.c16_budget = [MAX_CONFIRMATIONS]         # confirmations (re-runs alone) of histories that overran the first-stage CPU budget
+    # caps shared by all dispatcher processes of this run (one directory, one empty file per overrun / crash)
+    import tempfile, shutil, atexit
+    shared = tempfile.mkdtemp(prefix="c16-shared-", dir=vf.mkdir(os.path.join(vf.BUILD, "tmp")))
+    os.environ["C16_SHARED"] = shared
+    atexit.register(lambda: (shutil.rmtree(shared, ignore_errors=True), os.environ.pop("C16_SHARED", None)))
     # ---- isolated references: every constructor overload of every class, each in a process of its own
     reqs = [(c, q) for c in classes for q in range(4 * NVARIANTS)]
     out, bad = run_parallel(hb, ["%s c0:%d\n" % cq for cq in reqs], jobs=4, timeout=1500)
@@ -904,6 +929,9 @@ def run_histories(chk, rng, tier, classes=None):
             continue
         cls, steps, crash = parse_line(line)
         if crash == "no-such-constructor":
+            continue
+        if crash == "skipped-after-watchdog":
+            chk.cov["skipped_after_watchdog"] = chk.cov.get("skipped_after_watchdog", 0) + 1
             continue
         if crash in WATCHDOG:
             line = resolve_watchdog(chk, hb, c, "c0:%d" % q, crash, tier, budget)
